@@ -613,3 +613,10 @@ mod trace {
         assert_eq!(trace.bond(2, 0), Some(4));
     }
 }
+
+#[cfg(purr_verif)]
+pub fn verif_read_atom(
+    scanner: &mut Scanner
+) -> Result<Option<AtomKind>, Error> {
+    read_atom(scanner)
+}
